@@ -311,6 +311,30 @@ func firstPacketAF(r *rand.Rand, hdrLen int, big bool) *astits.PacketAdaptationF
 			a.StuffingLength = 0
 		}
 	}
+	if big && r.IntN(6) == 0 {
+		// more private data than any packet holds, also more than the 8 bit length can say: the call has to fail as a whole
+		a.HasTransportPrivateData = true
+		a.TransportPrivateData = gen.Bytes(r, 184+r.IntN(260))
+		a.TransportPrivateDataLength = len(a.TransportPrivateData)
+		return a
+	}
+	// requested stuffing: the adaptation field of a packet that was parsed and is handed back to WriteData still says how much
+	// stuffing it carried (a remultiplexer). However much of it the library honours, what comes out are whole conformant packets
+	// and the unit survives the round trip
+	if r.IntN(4) == 0 {
+		size := gen.AFBodySize(a)
+		room := body - size // what still leaves the PES header its place
+		switch k := r.IntN(8); {
+		case big || k == 0:
+			a.StuffingLength = r.IntN(183 - size + 1) // up to filling the packet on its own
+		case room > 0 && k < 6:
+			a.StuffingLength = 1 + r.IntN(room)
+		case k == 6:
+			a.StuffingLength = room + 1 + r.IntN(183-size-room) // content fits next to the header, content + stuffing does not
+		default:
+			a.StuffingLength = 184 - size + r.IntN(100) // more than a packet holds
+		}
+	}
 	return a
 }
 
